@@ -674,7 +674,7 @@ C04Ack(T, side, kind, waitStep, lim) ==
               \* call that declared the limit fault and cancelled); re-sends = emissions since the last fresh start
               fresh == { j \in ems : T.ev[j].pre.step \notin {waitStep, "RETRANSMITTING"} \/ T.ev[j].call # "fsm" \/ HasFlt(T.ev[j], "POSITIVE_ACK_LIMIT_REACHED") }
               resends == IF fresh = {} THEN Cardinality(ems) - 1 ELSE Cardinality({ j \in ems : j > LastIdx(fresh) })
-              expired == e.now - T.ev[lastE].now >= T.cfg.ackInt
+              expired == e.now - T.ev[lastE].now >= (IF side = "D" /\ T.cfg.ackIntD # 0 THEN T.cfg.ackIntD ELSE T.cfg.ackInt)
               resent == \E k \in DOMAIN e.out : e.out[k].t = kind /\ e.out[k].cond = cond
               limitFlt == HasFlt(e, "POSITIVE_ACK_LIMIT_REACHED") \/ (cond # "NO_ERROR" /\ \E k \in DOMAIN e.flt : e.flt[k].k = "abandon")
               B(c) == {V("C04", c, i, Kf(T), kind, "")} IN
